@@ -361,6 +361,9 @@ func (m *Machine) access(th *Thread, obj interface{}, write bool) {
 	if !m.H.RaceCheck || len(m.threads) < 2 || th == nil || obj == nil {
 		return
 	}
+	if mp, ok := obj.(*MapV); ok && mp != nil && mp.model {
+		return
+	}
 	sh := m.shadows[obj]
 	if sh == nil {
 		sh = &shadow{wThread: -1, reads: map[int]int{}, rSite: map[int]string{}}
